@@ -11,7 +11,13 @@
     default license taken once and kept across a configuration change (HeaderRight), a full queue that accepts by
     evicting the oldest accepted pack (NoLossSafe).
 (A) Trace_OneWay: the real OneWayTcpClient against a scripted loopback collector: concurrent senders, queue mode
-    (SendAndClear and the background worker), cut scripts, listener outages, frames larger than the writer buffer.
+    (SendAndClear and the background worker), cut scripts, listener outages, frames larger than the writer buffer;
+    every pack goes in through one of the public entry points (Send, SendFlush false/true) with plain or decorated
+    per-send options; a backlog exactly at capacity (capacities 1..4, grown, shrunk, unbounded) meets every entry point
+    while the drainer is not running, parked in a send or parked in a refused dial; the configuration (default license,
+    capacity, server list) changes between sends by assignment to the exported fields and by ApplyConfig (one Config
+    event carrying what the client did inside: connection dropped? dialled, with which result?; the specification
+    decides whether that is possible there).
     Hook events are sequenced under the send lock by one atomic counter.  What the collector read on every connection
     is a prophecy (kernel timing is not observable); the specification decides whether the outcome each socket write
     reported is allowed together with what arrived.
